@@ -1561,7 +1561,6 @@ func (*Context).Init
 func newParser
   props C16 C08 C01
   noverify
-  assigns nothing
   ensures result != nil && isFresh(result) && result.cur.data != nil && isFresh(result.cur.data)
 
 func (*parser).parse
